@@ -82,6 +82,30 @@ Theorem scan_total : forall ord ps i bal nul,
 Proof. exact scan_posts_total. Qed.
 Print Assumptions scan_total.
 
+(* THE TWO-COMMODITY RULE (xact.cc:220-283).  No elided amount, no written cost, a balance holding
+   exactly two commodities x (the top posting's) and y: every balancing posting in x gets the cost
+   |y/x| * amount (apply_rate with that rate), amounts are untouched, nothing is left in x and the
+   remainder in y is  y + |y/x| * x ... *)
+Theorem two_commodity_implied_rate : forall ord cp ps bal x y q cx cy ps' bal',
+  acomm x = Some cx -> acomm y = Some cy -> comm_eqb (Some cx) (Some cy) = false ->
+  amt_div cp y x = Ok q ->
+  let rate := let r := amt_abs q in mkAmt (aq r) (aprec r) true (acomm r) in
+  apply_rate ord cp rate (Some cx) ps bal = Ok (ps', bal') ->
+  den bal (Some cx) == aq x -> den bal (Some cy) == aq y ->
+  rated_sum (Some cx) ps (Some cx) == aq x ->
+  map p_amt ps' = map p_amt ps /\
+  den bal' (Some cx) == 0 /\
+  den bal' (Some cy) == aq y + Qabs (aq y / aq x) * aq x.
+Proof. exact two_commodity_rate. Qed.
+Print Assumptions two_commodity_implied_rate.
+
+(* ... which is zero exactly when the two commodity totals have opposite signs: a purchase
+   `10 AAA / $-25` is a conversion, `10 AAA / $25` does not balance *)
+Theorem implied_rate_balances_iff_opposite_signs : forall x y : Q,
+  ~ x == 0 -> (y + Qabs (y / x) * x == 0 <-> (y == 0 \/ (0 < x /\ y < 0) \/ (x < 0 /\ 0 < y))).
+Proof. exact rate_remainder_zero_iff. Qed.
+Print Assumptions implied_rate_balances_iff_opposite_signs.
+
 (* non-vacuity: a concrete three-posting transaction over two commodities with a cost meets
    the hypotheses of exactly_balanced_accepted (10 AAA @ $2.50, $-25.00) *)
 Example hypotheses_satisfiable :
